@@ -182,6 +182,12 @@ class RefServer:
         res_r, res_w = os.pipe()
         env = dict(os.environ)
         env['PYTHONHASHSEED'] = CANONICAL_HASHSEED
+        # the reference lives in the canonical environment
+        for k in [k for k in env if k.startswith('PROPKA_')] + ['TZ', 'LC_ALL', 'COLUMNS',
+                                                                'XDG_CONFIG_HOME', 'PYTHONMALLOC']:
+            env.pop(k, None)
+        env['HOME'] = env.get('VERIF_CANONICAL_HOME', '/root')
+        env['LANG'] = 'C.UTF-8'
         self.proc = subprocess.Popen(
             [sys.executable, '-m', 'sim.refserver', str(req_r), str(res_w), base_tmp,
              self.reqpath, self.respath],
